@@ -95,6 +95,17 @@ def compare_dir(chk: Check, site: driver.Site, sel: bytes, ctx: str, abstract_en
                              "with": r2.data[:200]})
                 return
             chk.count("trailing_slash_pairs")
+        # a client that percent-encodes only what a URL path must encode names the same directory
+        if reqs.VIEWS[view][0] in ("http", "wap", "gemini", "spartan") and any(ch in sel for ch in b"!$&'()*+,;=:@"):
+            for tail in (b"", b"/"):
+                req3, tls3 = reqs.render(view, sel + tail, minimal_path=True)
+                r3 = site.request(req3, tls=tls3)
+                chk.count("minimal_escaping_requests")
+                if validate.normalize_ts(r3.data) != per_view[view][1]:
+                    chk.witness("C06/reserved-character-sent-literally-changes-answer:%s" % reqs.VIEWS[view][0],
+                                {"view": view, "selector": sel + tail, "ctx": ctx, "request": req3[:200], "escaped_form_got": per_view[view][1][:200],
+                                 "literal_form_got": r3.data[:200]})
+                    return
     base_view = "gopher"
     for view in views:
         if view == base_view:
@@ -210,6 +221,22 @@ def search_equivalence(chk: Check, site: driver.Site, rng, ctx: str) -> None:
                 if seen[view] is None:
                     chk.witness("C06/search-target-failed:%s" % reqs.VIEWS[view.split(":")[0]][0],
                                 {"view": view, "selector": sel, "query": q, "reply_head": resp.data[:160], "log": resp.log[:3]})
+            # the same submissions delivered in several pieces (request line | body, mid-line, mid-body ...)
+            for view in ("spartan", "gopher", "http", "gemini", "gopherp+")[(len(q) + len(sel)) % 2::2]:
+                if reqs.VIEWS[view][0] == "gopher" and (q == b"!" or q[:1] in (b"+", b"$")):
+                    continue
+                req, tls = reqs.render(view, sel, q)
+                nl = req.find(b"\n") + 1
+                plans = [[nl], [nl + max(1, (len(req) - nl) // 2)], [nl, nl + max(1, (len(req) - nl) // 2)], [max(1, nl // 2)],
+                         [rng.randrange(1, len(req)) for _ in range(2)]]
+                for plan in plans[:3] if view == "spartan" else plans[3:]:
+                    resp = site.request(req, tls=tls, segments=plan)
+                    label = "%s:segments@%s" % (view, ",".join(str(k) for k in sorted(set(plan))))
+                    seen[label] = extract_echo(view, resp, marker)
+                    chk.count("segmented_search_submissions")
+                    if seen[label] is None:
+                        chk.witness("C06/search-target-failed:%s" % reqs.VIEWS[view][0],
+                                    {"view": label, "selector": sel, "query": q, "reply_head": resp.data[:160], "log": resp.log[:3]})
             if None in seen.values():
                 continue
             bad = {v: e for v, e in seen.items() if e != q}
